@@ -1,7 +1,8 @@
 (* C08 - Expressions: C-like precedence, 64-bit two's-complement arithmetic, lazy ite, literal radix.
    Property theorems only; proofs in proofs/BinOpTreeProof.v, EvalProof.v, RadixProof.v. *)
 From DTR Require Import Prelude I64 Ast FramedMap Lexer Parser Eval.
-From DTR.proofs Require Import I64Facts BinOpTreeProof EvalProof RadixProof.
+From DTR Require Import GeneratedTables.
+From DTR.proofs Require Import I64Facts BinOpTreeProof EvalProof RadixProof TablesProof.
 Local Open Scope Z_scope.
 
 (* ---- precedence and associativity: the tree the parser builds by folding BinOpTree::add over
@@ -132,6 +133,16 @@ Theorem C08_parse_number : forall input_len st t r,
     | Some n => Ok (n, set_toks st r (pline st))
     | None => Err {| pe_kind := PE_NumberParseError; pe_at := [tspan t] |} end.
 Proof. exact parse_number_literal_value. Qed.
+
+(* ---- T1: the tables the theorems above talk about are the tables of the SOURCE: GeneratedTables.v is
+   regenerated from src/parser/binoptree.rs, src/parser/expr.rs, src/expr.rs on every run *)
+Theorem C08_precedence_table_is_the_source : forall op, precedence op = gen_precedence op.
+Proof. exact precedence_pinned. Qed.
+Theorem C08_binary_operator_tokens_are_the_source : forall k,
+  is_binary_op k = gen_is_binary_op k /\ binop_of_token k = gen_binop_of_token k /\ unop_of_token k = gen_unop_of_token k.
+Proof. intros k. split; [apply is_binary_op_pinned | split; [apply binop_of_token_pinned | apply unop_of_token_pinned]]. Qed.
+Theorem C08_function_table_is_the_source : func_table = gen_func_table.
+Proof. exact func_table_pinned. Qed.
 
 Check C08_tree_unique.
 Print Assumptions C08_tree_is_precedence_correct.
